@@ -85,6 +85,7 @@ package py
 //@ ghost lasterr object local
 //@ ghost opid int local
 //@ ghost opcall object local
+//@ ghost opat int local
 
 //@ func (*Code).Addr2Line(co, addrq) (line)
 //@   trusted
@@ -178,3 +179,58 @@ package py
 // ---- package-level state (C08): written outside init only by type registration, which runs during package
 // initialisation (TypeDelayReady is called from package-level variable initialisers, TypeMakeReady from init) ----
 //@ allow-global-write delayedReady
+
+// ---- per-context module state (C08, C19) ----
+
+//@ func (StringDict).Copy(d) (e)
+//@   ensures fresh: e != nil && fresh(e) && e != d
+//@   ensures same: forall k string: (has(e, k) <==> has(d, k)) && (has(d, k) ==> e[k] == d[k])
+//@   ensures src: d != nil ==> (forall k string: (has(d, k) <==> old(has(d, k))) && d[k] == old(d[k]))
+//@   loop 1
+//@     invariant fr: e != nil && e != d && fresh(e)
+//@     invariant done: forall k string: has(e, k) <==> (visited(k) && has(d, k))
+//@     invariant vals: forall k string: has(e, k) ==> e[k] == d[k]
+//@     invariant others: mapsframe(e)
+
+//@ func (*ModuleStore).NewModule(store, ctx, impl) (m, err)
+//@   traced 44
+//@   requires nn: impl != nil && store.modules != nil
+//@   modifies mapof(store.modules), store.Builtins, store.Importlib
+//@   ensures ok: err == nil && m != nil && fresh(m)
+//@   ensures own: m.Globals != nil && fresh(m.Globals) && m.Globals != impl.Globals && m.Context == ctx && m.ModuleImpl == impl
+//@   ensures shared: impl.Globals != nil ==> (forall k string: (has(impl.Globals, k) <==> old(has(impl.Globals, k))) && impl.Globals[k] == old(impl.Globals[k]))
+//@   ensures registered: has(store.modules, ite(impl.Info.Name == "", MainModuleName, impl.Info.Name)) && store.modules[ite(impl.Info.Name == "", MainModuleName, impl.Info.Name)] == m
+//@   ensures others: forall k string: k != ite(impl.Info.Name == "", MainModuleName, impl.Info.Name) ==> (has(store.modules, k) <==> old(has(store.modules, k))) && store.modules[k] == old(store.modules[k])
+//@   loop 1
+//@     invariant own: m != nil && fresh(m) && m.Globals != nil && fresh(m.Globals) && m.Globals == pre(m.Globals) && m.Context == ctx && m.ModuleImpl == impl
+//@     invariant others: mapsframe(m.Globals)
+
+// ---- imports (C19): a module already in the context's store is returned without initialising or running anything ----
+// loaded/modof name what Context.GetModule computes (abstract; pinned by the contract of the interface method).
+
+//@ iface Context.GetModule(self, moduleName) (m, err)
+//@   pure
+//@   ensures hit: (err == nil) <==> loaded(self, moduleName)
+//@   ensures mod: err == nil ==> m != nil && m == modof(self, moduleName)
+
+//@ iface Context.ModuleInit(self, impl) (m, err)
+//@   traced 46
+//@   modifies *
+//@   ensures nn: err == nil ==> m != nil
+
+//@ func RunFile(ctx, pathname, opts, inModule) (m, err)
+//@   trusted
+//@   traced 47
+//@   modifies *
+//@   ensures nn: err == nil ==> m != nil
+
+//@ func GetModuleImpl(moduleName) (impl)
+//@   trusted
+//@   pure
+
+//@ func ImportModuleLevelObject(ctx, name, globals, locals, fromlist, level) (r, err)
+//@   requires nn: ctx != nil
+//@   modifies *
+//@   ensures cached: old(loaded(ctx, name)) ==> err == nil && is(r, *Module) && r.(*Module) == old(modof(ctx, name)) && opat[0] == 0
+//@   ensures once: opat[0] <= 1
+//@   ensures how: err == nil && !old(loaded(ctx, name)) ==> opat[46] == 1 || opat[47] == 1
